@@ -3,8 +3,10 @@
 package grpc
 
 import (
+	node "buf.build/gen/go/agglayer/agglayer/grpc/go/agglayer/node/v1/nodev1grpc"
 	v1types "buf.build/gen/go/agglayer/interop/protocolbuffers/go/agglayer/interop/types/v1"
 	"github.com/agglayer/aggkit/agglayer/types"
+	aggkitgrpc "github.com/agglayer/aggkit/grpc"
 )
 
 // VerifConvertToProtoImportedBridgeExit exposes convertToProtoImportedBridgeExit to the verification harness.
@@ -15,4 +17,11 @@ func VerifConvertToProtoImportedBridgeExit(ibe *types.ImportedBridgeExit) (*v1ty
 // VerifConvertToProtoBridgeExit exposes convertToProtoBridgeExit to the verification harness.
 func VerifConvertToProtoBridgeExit(be *types.BridgeExit) *v1types.BridgeExit {
 	return convertToProtoBridgeExit(be)
+}
+
+// VerifNewAgglayerGRPCClient builds the real client around caller-supplied service clients, so a fake
+// service captures the exact requests.
+func VerifNewAgglayerGRPCClient(cfg *aggkitgrpc.ClientConfig, ns node.NodeStateServiceClient,
+	cs node.ConfigurationServiceClient, ss node.CertificateSubmissionServiceClient) *AgglayerGRPCClient {
+	return &AgglayerGRPCClient{cfg: cfg, networkStateService: ns, cfgService: cs, submissionService: ss}
 }
